@@ -25,6 +25,38 @@ use std::hash::{Hash, Hasher};
 
 type T = Vec<String>;
 
+/// Display through a capped sink: a Display impl that never terminates (or
+/// produces output out of all proportion to a 64 KiB message) is detected
+/// instead of exhausting memory. 16 MiB is more than 60x the largest
+/// escaped rendering of a 65535-octet message.
+pub struct Capped { pub buf: String, pub cap: usize, pub hit: bool }
+impl std::fmt::Write for Capped {
+    fn write_str(&mut self, s: &str) -> std::fmt::Result {
+        if self.buf.len() + s.len() > self.cap { self.hit = true; return Err(std::fmt::Error); }
+        self.buf.push_str(s);
+        Ok(())
+    }
+}
+pub fn show<D: std::fmt::Display + ?Sized>(what: &str, d: &D) -> Result<String, Violation> {
+    let mut c = Capped { buf: String::new(), cap: 16 << 20, hit: false };
+    let r = write!(c, "{}", d);
+    if c.hit {
+        return Err(Violation::new(format!("display-unbounded:{what}"), format!("Display of {what} produced more than 16 MiB for one message (non-terminating Display?)")));
+    }
+    let _ = r;
+    Ok(c.buf)
+}
+pub fn show_dbg<D: std::fmt::Debug + ?Sized>(what: &str, d: &D) -> Result<String, Violation> {
+    let mut c = Capped { buf: String::new(), cap: 16 << 20, hit: false };
+    let r = write!(c, "{:?}", d);
+    if c.hit {
+        return Err(Violation::new(format!("display-unbounded:{what}"), format!("Debug of {what} produced more than 16 MiB")));
+    }
+    let _ = r;
+    Ok(c.buf)
+}
+
+
 fn hash_of<H: Hash>(h: &H) -> u64 {
     let mut s = DefaultHasher::new();
     h.hash(&mut s);
@@ -81,8 +113,8 @@ fn use_name<O: Octets + Clone>(what: &str, n: &ParsedName<O>, t: &mut T) -> Case
         steps += 1;
         vensure!(steps <= 130, "parsedname-parent-unbounded", "{what}");
     }
-    let shown = format!("{n}");
-    let _ = format!("{n:?}");
+    let shown = show("name", n)?;
+    let _ = show_dbg("name", n)?;
     let _ = writeln!(t.last_mut().unwrap(), " name={shown}");
     Ok(())
 }
@@ -102,7 +134,7 @@ macro_rules! limit_types {
                     steps += 1;
                     vensure!(steps <= $count + 2, "record-iter-unbounded", "limit_to::<{}> yields more than the header count", stringify!($ty));
                     match r {
-                        Ok(rec) => { n_ok += 1; let _ = format!("{}", rec); let _ = hash_of(&rec); let _ = rec == rec; }
+                        Ok(rec) => { n_ok += 1; let _ = show("typed-record", &rec)?; let _ = hash_of(&rec); let _ = rec == rec; }
                         Err(_) => { n_err += 1; }
                     }
                 }
@@ -156,14 +188,14 @@ fn section<'a>(
                 let any = pr.to_any_record::<AllRecordData<Rg<'_>, Pn<'_>>>();
                 let typed: Result<Vec<u8>, String> = match &any {
                     Ok(rec) => {
-                        let s = format!("{rec}");
+                        let s = show("record", rec)?;
                         t.push(format!("  any=OK {}", &s[..s.len().min(200)]));
                         let _ = hash_of(rec);
                         let _ = rec == rec; /* reflexivity is C04's business */
                         let _ = rec.partial_cmp(rec);
-                        if heavy {
+                        if heavy || count <= 12 {
                             for k in [DisplayKind::Simple, DisplayKind::Tabbed, DisplayKind::Multiline] {
-                                let _ = rec.display_zonefile(k).to_string();
+                                let _ = show("record-zonefile", &rec.display_zonefile(k))?;
                             }
                         }
                         // uncompressed composition of the data
@@ -229,7 +261,7 @@ pub fn traverse(msg: &Message<$O>, other: &Message<[u8]>, order: u8, heavy: bool
                 Ok(qq) => {
                     t.push(format!("q[{steps}] type={} class={}", qq.qtype(), qq.qclass()));
                     use_name("qname", qq.qname(), t)?;
-                    let _ = format!("{qq}");
+                    let _ = show("question", &qq)?;
                     let _ = hash_of(&qq);
                     let _ = qq == qq;
                     qseen.push((gn::show(&gn::from_name(qq.qname())), qq.qtype().to_int(), qq.qclass().to_int()));
@@ -266,7 +298,7 @@ pub fn traverse(msg: &Message<$O>, other: &Message<[u8]>, order: u8, heavy: bool
                     let mut n = 0;
                     for r in a.limit_to_in::<domain::rdata::A>() { n += 1; vensure!(n <= cnt + 2, "record-iter-unbounded", "limit_to_in"); let _ = r; }
                     let mut n = 0;
-                    for r in a.into_records::<AllRecordData<Rg<'_>, Pn<'_>>>() { n += 1; vensure!(n <= cnt + 2, "record-iter-unbounded", "into_records"); let _ = r.map(|r| format!("{r}")); }
+                    for r in a.into_records::<AllRecordData<Rg<'_>, Pn<'_>>>() { n += 1; vensure!(n <= cnt + 2, "record-iter-unbounded", "into_records"); if let Ok(r) = r { let _ = show("record", &r)?; } }
                 }
                 match a.next_section() {
                     Ok(Some(ns)) => {
@@ -320,7 +352,7 @@ pub fn traverse(msg: &Message<$O>, other: &Message<[u8]>, order: u8, heavy: bool
                     n += 1;
                     vensure!(n <= 20000, "opt-iter-unbounded", "opt iterator unbounded");
                     match x {
-                        Ok(d) => t.push(format!(" opt-data {}", format!("{d:?}").chars().take(120).collect::<String>())),
+                        Ok(d) => { let x = show_dbg("opt-data", &d)?; t.push(format!(" opt-data {}", x.chars().take(120).collect::<String>())) }
                         Err(e) => t.push(format!(" opt-data {}", e2s(e))),
                     }
                 }
@@ -330,14 +362,14 @@ pub fn traverse(msg: &Message<$O>, other: &Message<[u8]>, order: u8, heavy: bool
                 let _ = o.opt().first::<domain::base::opt::TcpKeepalive>();
                 let _ = o.opt().first::<domain::base::opt::Nsid<_>>();
                 let _ = o.opt().first::<domain::base::opt::ExtendedError<_>>();
-                let _ = format!("{:?}", o.as_record().data());
+                let _ = show_dbg("opt", o.as_record().data())?;
             }
             None => t.push("opt none".into()),
         }
         t.push(format!("opt_rcode={}", msg.opt_rcode()));
         t.push(format!("last_additional opt={} tsig={} a={}",
             msg.get_last_additional::<Opt<_>>().is_some(),
-            msg.get_last_additional::<domain::rdata::Tsig<_, _>>().map(|r| { let _ = format!("{r}"); true }).unwrap_or(false),
+            match msg.get_last_additional::<domain::rdata::Tsig<_, _>>() { Some(r) => { let _ = show("tsig-record", &r)?; true } None => false },
             msg.get_last_additional::<domain::rdata::A>().is_some()));
         Ok(())
     };
@@ -499,7 +531,12 @@ pub fn run_on(bytes: &[u8], tags: &[&'static str], order: u8, heavy: bool, istar
                     Err(WalkErr::BadName(why)) => {
                         ctx.report(Violation::new(format!("rdata-name-accepted-walker-rejects:{why}"), format!("section {secno} record {i} type {}: library parsed RDATA but the walker rejects an embedded name ({why})", wr.rtype)))?;
                     }
-                    Err(WalkErr::Short) => { ctx.class("typed-ok-walker-short"); }
+                    Err(WalkErr::Short) => {
+                        // the RDATA is too short for the type's fixed fields (or an
+                        // embedded length runs past RDLENGTH): accepting it means the
+                        // parser read beyond the record's data
+                        ctx.report(Violation::new(format!("rdata-accepted-beyond-rdlen:{}", crate::refimpl::rdata::mnemonic(wr.rtype)), format!("section {secno} record {i} type {}: library parsed RDATA of {} octets that is too short for the type", wr.rtype, wr.rd_end - wr.rd_start)))?;
+                    }
                     Err(_) => { ctx.class("typed-ok-walker-form"); }
                 }
             }
@@ -525,10 +562,8 @@ pub fn run_on(bytes: &[u8], tags: &[&'static str], order: u8, heavy: bool, istar
         // copy_records
         let target = MessageBuilder::new_vec().answer();
         let _ = m_slice.copy_records(target, |r| r.into_any_record::<AllRecordData<_, _>>().ok());
-        if heavy {
-            let _ = m_vec.display_dig_style().to_string();
-        } else if bytes.len() < 2000 {
-            let _ = m_vec.display_dig_style().to_string();
+        if heavy || bytes.len() < 2000 {
+            let _ = show("dig-style", &m_vec.display_dig_style())?;
         }
     }
     // XFR interpreter (anchored in C01's file list)
@@ -558,6 +593,76 @@ pub fn run_on(bytes: &[u8], tags: &[&'static str], order: u8, heavy: bool, istar
         ctx.sample(|| format!("{} octets, tags={tags:?}, questions={} records={} walker_error={:?}; first lines: {:?}", bytes.len(), q1.len(), s1.len(), w.error, &t1[..t1.len().min(4)]));
     }
     Ok(())
+}
+
+
+/// Near-valid OPT: header + question + OPT whose options have known codes
+/// but hostile lengths and contents (every EDNS option parser gets input
+/// at and around its field boundaries).
+fn run_opt(data: &[u8], ctx: &mut Ctx) -> CaseResult {
+    let mut u = Unstructured::new(data);
+    let order = byte(&mut u);
+    let mut a = wire::Asm::new(u16_(&mut u), 0x0100);
+    a.question(&[b"example".to_vec()], 1, 1);
+    let mut rd = vec![];
+    for _ in 0..1 + pick(&mut u, 4) {
+        let code: u16 = if chance(&mut u, 230) { [3u16, 5, 6, 7, 8, 9, 10, 11, 12, 13, 14, 15, 16, 17, 18][pick(&mut u, 15)] } else { u16_(&mut u) };
+        let mut v: Vec<u8> = match pick(&mut u, 3) {
+            0 => {
+                // from the valid generator, then damaged
+                let all = crate::gen::rdata::rdata(&mut u, crate::refimpl::rdata::OPT, &[], Default::default());
+                if all.len() >= 4 { all[4..].to_vec() } else { vec![] }
+            }
+            _ => (0..pick(&mut u, 40)).map(|_| match pick(&mut u, 4) { 0 => pickb(&mut u, &[0, 1, 2, 3, 32, 33, 128, 129, 255, 0xC0, 24, 25]), _ => byte(&mut u) }).collect(),
+        };
+        if code == 8 && v.len() >= 4 && chance(&mut u, 200) {
+            v[0] = 0;
+            v[1] = pickb(&mut u, &[1, 2, 1, 2, 0, 3]);
+            v[2] = pickb(&mut u, &[0, 1, 8, 24, 31, 32, 33, 64, 127, 128, 129, 255, 40, 100]);
+        }
+        if chance(&mut u, 60) && !v.is_empty() { let n = pick(&mut u, v.len()); v.truncate(n); }
+        rd.extend_from_slice(&code.to_be_bytes());
+        let adv = match pick(&mut u, 8) { 0 => v.len() as u16 + 1, 1 => (v.len() as u16).wrapping_sub(1), _ => v.len() as u16 };
+        rd.extend_from_slice(&adv.to_be_bytes());
+        rd.extend(v);
+    }
+    a.record(3, &[], 41, [512u16, 1232, 0, 65535][pick(&mut u, 4)], u32_(&mut u), &rd);
+    run_on(&a.buf, &["near-valid-opt"], order, true, 0, ctx)
+}
+
+/// Near-valid typed RDATA: valid RDATA of a known type damaged at octet
+/// level (hostile octets such as invalid UTF-8, truncation, extension) inside
+/// a well-formed record frame (RDLENGTH consistent), so that every type's
+/// parser, comparison and Display code gets input just outside what its
+/// happy path expects.
+fn run_rdata(data: &[u8], ctx: &mut Ctx) -> CaseResult {
+    use crate::refimpl::rdata as rr;
+    let mut u = Unstructured::new(data);
+    let order = byte(&mut u);
+    let pool = gn::pool(&mut u, 3, false);
+    let mut a = wire::Asm::new(u16_(&mut u), 0x8180);
+    a.question(&pool[0], 255, 1);
+    for _ in 0..1 + pick(&mut u, 3) {
+        let rtype = rr::ALL_TYPES[pick(&mut u, rr::ALL_TYPES.len())];
+        let mut rd = crate::gen::rdata::rdata(&mut u, rtype, &pool, Default::default());
+        for _ in 0..pick(&mut u, 4) {
+            if rd.is_empty() { break; }
+            let i = pick(&mut u, rd.len());
+            match pick(&mut u, 6) {
+                0 => rd[i] = pickb(&mut u, &[0xFF, 0xC0, 0x80, 0xFE, 0xED, 0xF4, 0xE0]),
+                1 => rd[i] = pickb(&mut u, &[0, 1, 63, 64, 255, 32, 33]),
+                2 => { rd.truncate(i); }
+                3 => { let b = byte(&mut u); rd.insert(i, b); }
+                4 => rd[i] = rd[i].wrapping_add(1),
+                _ => rd[i] = byte(&mut u),
+            }
+        }
+        if chance(&mut u, 30) { rd.push(byte(&mut u)); }
+        rd.truncate(65000);
+        let owner = pool[pick(&mut u, pool.len())].clone();
+        a.record(1, &owner, rtype, 1, u32_(&mut u), &rd);
+    }
+    run_on(&a.buf, &["near-valid-rdata"], order, true, 0, ctx)
 }
 
 /// Large messages: sizes around 0x3FFF/0x4000 and up to 65535 octets,
@@ -606,6 +711,8 @@ pub fn prop() -> Prop {
             SubCheck::new("msg", run_msg, 400_000, 8_000_000, 1500),
             SubCheck::new("raw", run_raw, 150_000, 3_000_000, 700),
             SubCheck::new("big", run_big, 6_000, 200_000, 400),
+            SubCheck::new("opt", run_opt, 150_000, 4_000_000, 300),
+            SubCheck::new("rdata", run_rdata, 250_000, 6_000_000, 600),
         ],
         health: Some(health),
         extra: None,
